@@ -59,8 +59,11 @@ FlattenSteps(ss) == IF ss = <<>> THEN <<>> ELSE Head(ss) \o FlattenSteps(Tail(ss
 
 (* family "sched": (frame, first part) -> all schedules starting with that part *)
 MaxSched == IF Thorough THEN 10 ELSE 7
+(* short frames of the packet types of this process, by the reference encoder *)
+EncodedUpTo(n, k) == UNION { {Encode(p) : p \in Sample({q \in WirePkts(t) : Len(Encode(q)) <= n}, k)} : t \in TYPES }
+SchedFrames == (IF 1 \in TYPES THEN FramesUpTo(MaxSched) ELSE {}) \cup EncodedUpTo(MaxSched, IF Thorough THEN 40 ELSE 4)
 SchedCases ==
-  UNION { {[kind |-> "sched", f |-> f, first |-> a] : a \in 1..Len(f)} : f \in FramesUpTo(MaxSched) }
+  UNION { {[kind |-> "sched", f |-> f, first |-> a] : a \in 1..Len(f)} : f \in SchedFrames }
 
 SchedPlans(f, a) ==
   LET n == Len(f)
@@ -71,14 +74,48 @@ SchedPlans(f, a) ==
                       cmp \in {x \in comps : Len(x) <= 3}}
   IN plain \cup zeros
 
+(* long frames (two- and three-byte remaining length): chosen splits, one byte at a time for the head, zero-length reads *)
+BigFrame(n) == <<48>> \o VBI(n + 6) \o <<0, 3, 97, 47, 98, 0>> \o Bin(n)          \* PUBLISH a/b with n payload bytes
+BigLens == IF Thorough THEN {130, 5000, 20000, 70000} ELSE {130, 5000}
+BigPlans(len, hl) ==
+  LET splits == {1, 2, hl - 1, hl, hl + 1, hl + 6, hl + 7, len \div 2, 4096 + hl, len - 1} \cap (1..(len - 1))
+      two == {<<a, len - a>> : a \in splits}
+      three == {<<a, b, len - a - b>> : a \in {1, hl}, b \in {1, 7, len \div 3}}
+      ones == {[i \in 1..(hl + 8) |-> 1] \o <<len - hl - 8>>}
+      comps == two \cup three \cup ones
+  IN {[chunks |-> cmp, fate |-> "eof", with |-> w] : cmp \in comps, w \in BOOLEAN}
+     \cup {[chunks |-> WithZeros(cmp, zs, 1), fate |-> "eof", with |-> FALSE] :
+            cmp \in two \cup three, zs \in {{1}, {2}, {1, 2}, {3}}}
+SchedBigCases == IF 3 \in TYPES THEN {[kind |-> "schedbig", n |-> n] : n \in BigLens} ELSE {}
+SchedBigProg(x) ==
+  LET f == BigFrame(x.n)
+      plans == SetToSeq(BigPlans(Len(f), Len(f) - x.n - 6)) IN
+  [fam |-> "sched", meta |-> [len |-> Len(f), big |-> TRUE, n |-> Len(plans)],
+   steps |-> Contig(f) \o FlattenSteps([i \in 1..Len(plans) |-> <<[op |-> "Stream", stream |-> 1, bytes |-> f, reader |-> plans[i]],
+                                                                    [op |-> "ReadPacket", h |-> 2, stream |-> 1]>>])]
+
+FaultBigCases == IF 3 \in TYPES THEN {[kind |-> "faultbig", n |-> n] : n \in BigLens} ELSE {}
+FaultBigProg(x) ==
+  LET f == BigFrame(x.n)
+      hl == Len(f) - x.n - 6
+      cuts == {0, 1, 2, 3, hl - 1, hl, hl + 1, hl + 5, hl + 6, hl + 7, Len(f) \div 2, Len(f) - 1, Len(f)} \cap (0..Len(f))
+      plans == SetToSeq({[chunks |-> cmp, fate |-> ft, with |-> w, cut |-> cut] :
+                           cut \in cuts, ft \in {"eof", "err"}, w \in BOOLEAN,
+                           cmp \in {<<>>, <<1, 1, 1, 1>>}} ) IN
+  [fam |-> "fault", meta |-> [len |-> Len(f), big |-> TRUE, n |-> Len(plans)],
+   steps |-> FlattenSteps([i \in 1..Len(plans) |-> <<[op |-> "Stream", stream |-> 1, bytes |-> f, reader |-> plans[i]],
+                                                      [op |-> "ReadPacket", h |-> 2, stream |-> 1]>>])]
+
 SchedProg(x) ==
   LET plans == SetToSeq(SchedPlans(x.f, x.first)) IN
   [fam |-> "sched", meta |-> [len |-> Len(x.f), first |-> x.first, n |-> Len(plans)],
    steps |-> Contig(x.f) \o FlattenSteps([i \in 1..Len(plans) |-> ReadSteps(2, x.f, plans[i])])]
 
 (* family "fault": (frame, cut offset) -> fates x with/next x fragmentations of the prefix *)
+FaultFrames == (IF 1 \in TYPES THEN FramesUpTo(IF Thorough THEN 15 ELSE 9) ELSE {})
+               \cup EncodedUpTo(IF Thorough THEN 40 ELSE 24, IF Thorough THEN 30 ELSE 4)
 FaultCases ==
-  UNION { {[kind |-> "fault", f |-> f, cut |-> cut] : cut \in 0..Len(f)} : f \in FramesUpTo(IF Thorough THEN 15 ELSE 9) }
+  UNION { {[kind |-> "fault", f |-> f, cut |-> cut] : cut \in 0..Len(f)} : f \in FaultFrames }
 
 FaultPlans(f, cut) ==
   LET comps == IF cut <= (IF Thorough THEN 8 ELSE 5) THEN Compositions(cut)
@@ -92,17 +129,24 @@ FaultProg(x) ==
    steps |-> FlattenSteps([i \in 1..Len(plans) |-> ReadSteps(2, x.f, plans[i])])]
 
 (* family "seq": sequences of frames followed by trailing bytes, read by successive calls *)
-SeqFrames == {f \in ShortFrames : Len(f) <= 9}
+(* the same bodies under type nibbles whose layout is empty or optional: a decoder must still take the announced bytes *)
+Retyped == {<<b>> \o Tail(f) : b \in {0, 192, 208, 224, 240}, f \in {x \in ShortFrames : Framed(x) /\ Len(x) \in 3..7}}
+SeqFrames == {f \in ShortFrames : Len(f) <= 9} \cup (IF Thorough THEN Retyped ELSE {})
 Trailers == {<<>>, <<48>>, <<64, 2, 0>>, <<255, 255, 255, 255, 255, 1>>}
 SeqCases ==
-  {[kind |-> "seq", fs |-> fs, tr |-> tr] :
+  {[kind |-> "seq", fs |-> fs, tr |-> tr, with |-> FALSE] :
      fs \in UNION {[1..n -> SeqFrames] : n \in (IF Thorough THEN 1..3 ELSE 1..2)}, tr \in Trailers}
+  \cup {[kind |-> "seq", fs |-> <<a, b>>, tr |-> tr, with |-> w] :          \* retyped frame first / last; EOF with the last bytes
+         a \in Retyped \cup SeqFrames, b \in {<<192, 0>>, <<64, 2, 0, 1>>, <<224, 0>>}, tr \in {<<>>, <<48>>}, w \in BOOLEAN}
+  \cup {[kind |-> "seq", fs |-> <<b, a>>, tr |-> <<>>, with |-> TRUE] :
+         a \in {<<192, 0>>, <<208, 0>>, <<224, 0>>, <<240, 0>>, <<64, 2, 0, 1>>}, b \in SeqFrames}
 
 SeqProg(x) ==
   LET bytes == Concat(x.fs) \o x.tr
       nreads == Len(x.fs) + 2 IN
   [fam |-> "seq", meta |-> [n |-> Len(x.fs), tr |-> Len(x.tr)],
-   steps |-> <<[op |-> "Stream", stream |-> 1, bytes |-> bytes]>>
+   steps |-> <<IF x.with THEN [op |-> "Stream", stream |-> 1, bytes |-> bytes, reader |-> [chunks |-> <<>>, fate |-> "eof", with |-> TRUE]]
+                         ELSE [op |-> "Stream", stream |-> 1, bytes |-> bytes]>>
              \o [i \in 1..nreads |-> [op |-> "ReadPacket", h |-> i, stream |-> 1]]]
 
 (***************************************************************************)
@@ -302,8 +346,10 @@ BodyOf(f) == LET d == DecVBI(f, 2, Len(f), Len(f), FALSE) IN SubSeq(f, d.next, L
 (* CONNECT bodies whose protocol name differs from the constructor's default (decoded leniently by the library) *)
 OddConnects == { <<16, 13, 0, 4, 77, 81, 84, 88, 5, 2, 0, 60, 0, 0, 0>>, <<16, 11, 0, 2, 77, 81, 4, 2, 0, 60, 0, 0, 0>>,
                  <<16, 27, 0, 4, 77, 81, 84, 84, 5, 4, 0, 60, 0, 0, 1, 99, 0, 0, 1, 116, 0, 7, 72, 69, 76, 76, 79, 33, 33>> }
+ForeignOK == { <<64, 6, 0, 7, 0, 2, 11, 99>>,                    \* PUBACK carrying a subscription identifier
+               <<32, 5, 0, 0, 2, 11, 5>>, <<224, 4, 0, 2, 11, 9>> }
 OwnCases ==
-  {[kind |-> "own", a |-> a, b |-> b, mode |-> md] : a \in OwnFrames, b \in OwnFrames, md \in 1..3}
+  {[kind |-> "own", a |-> a, b |-> b, mode |-> md] : a \in OwnFrames, b \in OwnFrames \cup ForeignOK, md \in 1..3}
   \cup {[kind |-> "ownall", a |-> a, t |-> t] : a \in OwnFrames, t \in 0..15}
   \cup {[kind |-> "owninto", a |-> a] : a \in OwnFrames \cup OddConnects}
 Renumber(ops, base) ==        \* BuildOps uses handles 1 (packet) and 2 (will): shift them
@@ -409,8 +455,8 @@ ConcProg(x) ==
 
 (***************************************************************************)
 Cases2 ==
-  IF FAMILY = "sched" THEN SchedCases
-  ELSE IF FAMILY = "fault" THEN FaultCases
+  IF FAMILY = "sched" THEN SchedCases \cup SchedBigCases
+  ELSE IF FAMILY = "fault" THEN FaultCases \cup FaultBigCases
   ELSE IF FAMILY = "seq" THEN SeqCases
   ELSE IF FAMILY = "first" THEN {x \in FirstCases : FirstValid(x)}
   ELSE IF FAMILY = "wf" THEN WfPublishCases \cup WfSubscribeCases \cup WfFilterCases \cup WfWireCases
@@ -426,6 +472,8 @@ Init2 == c \in Cases2 /\ pool = EmptyFn
 
 ProgOf2(x) ==
   IF x.kind = "sched" THEN SchedProg(x)
+  ELSE IF x.kind = "schedbig" THEN SchedBigProg(x)
+  ELSE IF x.kind = "faultbig" THEN FaultBigProg(x)
   ELSE IF x.kind = "fault" THEN FaultProg(x)
   ELSE IF x.kind = "seq" THEN SeqProg(x)
   ELSE IF x.kind = "first" THEN FirstProg(x)
